@@ -554,6 +554,9 @@ def eval_prims(job, sr, res, use_model=True):
             tok = "barrier"
         elif kind == "coll":
             tok = KIND.get(d.get("kind"), "coll" + d.get("kind", "?"))
+            if d.get("kind") == "1":
+                tok = None      # MPI_Barrier (cf_barrier) carries no data: extra / missing ones cannot change a result (the
+                                # quiescence that matters is the count-based barrier() = the iallreduce rounds, token "barrier")
         elif kind in ("isend", "irecv"):
             tok = "treegather"
         if tok and (not cur[r][1] or cur[r][1][-1] != tok):
